@@ -96,6 +96,12 @@ func (c *Ctx) Count(key string, n int64) {
 
 // Violate records a violation; at most a few per signature are kept.
 func (c *Ctx) Violate(v Violation) {
+	if v.Replay == nil {
+		v.Replay = map[string]any{}
+	}
+	v.Replay["unit"] = c.R.Unit
+	v.Replay["tier"] = c.Tier
+	v.Replay["seed"] = c.Seed
 	n := 0
 	for i := range c.R.Violations {
 		if c.R.Violations[i].Sig == v.Sig {
